@@ -89,6 +89,12 @@ CHECKS = {
             "DESIGN.md §4 C08"),
 }
 
+CHECKS["C17"] = ("exploration",
+    "model-based stateful testing of the interactive session through a headless main-loop hook: proptest-generated key scripts, frame drawn at a generated terminal size after every key, shadow Machine driven by a reference command grammar, catch_unwind for crashes",
+    "Key scripts (characters incl. multi-byte/combining/wide, Enter, Tab/BackTab, arrows, Home/End, Backspace/Delete, Ctrl keys, unhandled keys, typed command lines from the grammar in every case/spacing/radix, values above 255, trailing text, unknown words, load of valid/invalid/missing/non-UTF-8/directory paths) are fed one key at a time into the real Tui::maintain/handle_event and the Interface is drawn into a TestBackend of a generated size (1x1..250x100, emphasis on the 76x28 guard). After every key: no panic, cursor index within the text, auto-run flag and selected part as expected, and the session's Machine equal to a shadow Machine on which the harness performed the documented effect: Ctrl keys and Enter-on-empty-line as the library calls of the same name, a submitted line classified by a reference grammar as valid (that call), invalid (unchanged + notification; in particular any number above 255 in any radix) or unconstrained (re-synchronised); while a notification shows a key only dismisses it; quit/Ctrl+C end the session.",
+    "Trusted: the verif-hooks step (injected keys, TestBackend, 37 edges per frame instead of the wall-clock slice) stands for the crossterm loop; reference grammar in harness-bin/src/c17.rs, self-checked on the README examples. Programs with a C06 known-finding shape are never loaded.",
+    "DESIGN.md §4 C17")
+
 PENDING_REASON = "check not built yet in this session (work in progress, see DESIGN.md §4a order of work); not claimed until it is silent on the unchanged tree and shown sensitive"
 
 
@@ -113,7 +119,7 @@ def main():
             "thorough_cmd": "./check.sh %s thorough" % pid,
             "evidence_file": "/verif/evidence/%s.json" % pid,
             "replay_cmd_template": "./check.sh %s quick --replay {path}" % pid,
-            "engine": "h2a-bin" if pid in ("C12", "C17") else "h2a",
+            "engine": "h2a-bin" if pid == "C17" else "h2a",
             "level_claimed": {"category": cat, "text": text, "design_ref": ref},
             "level_note": note,
             "technique": tech,
@@ -130,8 +136,10 @@ def main():
             "add_only": True,
         },
         "engines": [
-            {"name": "h2a", "path": "/verif/harness", "serves_properties": [p for p in ALL if p in CHECKS and p not in ("C12", "C17")],
-             "kind_free_text": "Rust binary `check`: proptest-driven generators (fixed seed), exhaustive enumerators, reference models; path dependency on /repo/emulator-2a-lib with verif-hooks"},
+            {"name": "h2a", "path": "/verif/harness", "serves_properties": [p for p in ALL if p in CHECKS and p != "C17"],
+             "kind_free_text": "Rust binary `check`: proptest-driven generators (fixed seed), exhaustive enumerators, reference models; path dependency on /repo/emulator-2a-lib with verif-hooks; C12/C06 additionally spawn the repository's own binary built with hooks off"},
+            {"name": "h2a-bin", "path": "/verif/harness-bin", "serves_properties": ["C17"],
+             "kind_free_text": "Rust binary `check-bin`: compiles /repo/emulator-2a/src (the binary crate has no library target) via #[path] modules with its verif-hooks feature on; proptest key scripts against the TUI"},
         ],
         "checks": checks,
         "not_applicable": na,
